@@ -119,6 +119,44 @@ fn do_search(rt: &Runtime, expr: &str, doc: &Value) -> Value {
     }
 }
 
+fn to_ast(v: &Value) -> Ast {
+    let b = |x: &Value| Box::new(to_ast(x));
+    let offset = v["offset"].as_u64().unwrap_or(0) as usize;
+    let oi = |x: &Value| x.as_i64().map(|n| n as i32);
+    match v["k"].as_str().unwrap() {
+        "Identity" => Ast::Identity { offset },
+        "Field" => Ast::Field { offset, name: v["name"].as_str().unwrap().to_string() },
+        "Literal" => Ast::Literal { offset, value: to_var(&v["value"]) },
+        "Index" => Ast::Index { offset, idx: v["idx"].as_i64().unwrap() as i32 },
+        "Slice" => Ast::Slice { offset, start: oi(&v["start"]), stop: oi(&v["stop"]), step: v["step"].as_i64().unwrap() as i32 },
+        "Not" => Ast::Not { offset, node: b(&v["node"]) },
+        "ObjectValues" => Ast::ObjectValues { offset, node: b(&v["node"]) },
+        "Flatten" => Ast::Flatten { offset, node: b(&v["node"]) },
+        "Subexpr" => Ast::Subexpr { offset, lhs: b(&v["lhs"]), rhs: b(&v["rhs"]) },
+        "Or" => Ast::Or { offset, lhs: b(&v["lhs"]), rhs: b(&v["rhs"]) },
+        "And" => Ast::And { offset, lhs: b(&v["lhs"]), rhs: b(&v["rhs"]) },
+        "Projection" => Ast::Projection { offset, lhs: b(&v["lhs"]), rhs: b(&v["rhs"]) },
+        "Condition" => Ast::Condition { offset, predicate: b(&v["predicate"]), then: b(&v["then"]) },
+        "Comparison" => {
+            use jmespath::ast::Comparator::*;
+            let c = match v["cmp"].as_str().unwrap() {
+                "Equal" => Equal, "NotEqual" => NotEqual, "LessThan" => LessThan, "LessThanEqual" => LessThanEqual,
+                "GreaterThan" => GreaterThan, _ => GreaterThanEqual,
+            };
+            Ast::Comparison { offset, comparator: c, lhs: b(&v["lhs"]), rhs: b(&v["rhs"]) }
+        }
+        "MultiList" => Ast::MultiList { offset, elements: v["elements"].as_array().unwrap().iter().map(to_ast).collect() },
+        "MultiHash" => Ast::MultiHash {
+            offset,
+            elements: v["elements"].as_array().unwrap().iter()
+                .map(|kv| jmespath::ast::KeyValuePair { key: kv[0].as_str().unwrap().to_string(), value: to_ast(&kv[1]) }).collect(),
+        },
+        "Expref" => Ast::Expref { offset, ast: b(&v["ast"]) },
+        "Function" => Ast::Function { offset, name: v["name"].as_str().unwrap().to_string(), args: v["args"].as_array().unwrap().iter().map(to_ast).collect() },
+        k => panic!("ast kind {}", k),
+    }
+}
+
 fn arg_type(s: &str) -> ArgumentType {
     match s {
         "any" => ArgumentType::Any,
@@ -140,6 +178,16 @@ fn handle(req: &Value) -> Value {
             let mut rt = Runtime::new();
             rt.register_builtin_functions();
             do_search(&rt, req["expr"].as_str().unwrap(), &req["doc"])
+        }
+        "search_ast" => {
+            let mut rt = Runtime::new();
+            rt.register_builtin_functions();
+            let ast = to_ast(&req["ast"]);
+            let x = jmespath::Expression::new(req["expr"].as_str().unwrap_or(""), ast, &rt);
+            match x.search(to_var(&req["doc"])) {
+                Ok(v) => json!({"kind": "ok", "value": from_var(&v)}),
+                Err(e) => err_json("err", &e),
+            }
         }
         "search_default" => {
             // through the crate-level compile() (DEFAULT_RUNTIME)
